@@ -103,23 +103,23 @@ func (c *Ctx) instrWrites(ins ssa.Instruction, keys map[string]bool, locals map[
 			}
 		}
 		if elem != nil {
-			keys[c.sortOf(elem)] = true
+			keys[c.hk(elem)] = true
 		}
 	case *ssa.Alloc:
 		if x.Heap || (fr != nil && fr.allocNeedsHeap(x)) || fr == nil {
 			rt := x.Type().Underlying().(*types.Pointer).Elem()
 			if at, ok := rt.Underlying().(*types.Array); ok {
-				keys[c.sortOf(at.Elem())] = true
-				keys["+"+c.sortOf(at.Elem())] = true
+				keys[c.hk(at.Elem())] = true
+				keys["+"+c.hk(at.Elem())] = true
 			} else if x.Heap {
-				keys[c.sortOf(rt)] = true
-				keys["+"+c.sortOf(rt)] = true
+				keys[c.hk(rt)] = true
+				keys["+"+c.hk(rt)] = true
 			}
 			*allocs = true
 		}
 	case *ssa.MakeSlice:
-		keys[c.sortOf(x.Type().Underlying().(*types.Slice).Elem())] = true
-		keys["+"+c.sortOf(x.Type().Underlying().(*types.Slice).Elem())] = true
+		keys[c.hk(x.Type().Underlying().(*types.Slice).Elem())] = true
+		keys["+"+c.hk(x.Type().Underlying().(*types.Slice).Elem())] = true
 		*allocs = true
 	case *ssa.MakeMap:
 		keys[c.mapKey(x.Type())] = true
@@ -208,11 +208,11 @@ func (c *Ctx) callWrites(call *ssa.CallCommon, visiting map[*ssa.Function]bool) 
 	case *ssa.Builtin:
 		switch v.Name() {
 		case "append":
-			w.keys[c.sortOf(call.Args[0].Type().Underlying().(*types.Slice).Elem())] = true
-			w.allocKeys[c.sortOf(call.Args[0].Type().Underlying().(*types.Slice).Elem())] = true
+			w.keys[c.hk(call.Args[0].Type().Underlying().(*types.Slice).Elem())] = true
+			w.allocKeys[c.hk(call.Args[0].Type().Underlying().(*types.Slice).Elem())] = true
 			w.allocs = true
 		case "copy":
-			w.keys[c.sortOf(call.Args[0].Type().Underlying().(*types.Slice).Elem())] = true
+			w.keys[c.hk(call.Args[0].Type().Underlying().(*types.Slice).Elem())] = true
 		case "delete":
 			w.keys[c.mapKey(call.Args[0].Type())] = true
 		}
@@ -249,8 +249,8 @@ func (c *Ctx) declaredWrites(fc *FuncContract) *writeSet {
 			te, err := parseTypeExpr(part)
 			if err == nil {
 				if t := c.resolveType(te, c.prog.TypesPkgs[fc.Pkg]); t != nil {
-					w.keys[c.sortOf(t)] = true
-					w.allocKeys[c.sortOf(t)] = true
+					w.keys[c.hk(t)] = true
+					w.allocKeys[c.hk(t)] = true
 					w.allocs = true
 				}
 			}
@@ -614,10 +614,10 @@ func (fr *frame) applyContract(fc *FuncContract, display string, names []string,
 					continue
 				}
 				if m.idx == "" {
-					na := c.declConst("modobj", "(Array Int "+k+")")
+					na := c.declConst("modobj", "(Array Int "+baseSort(k)+")")
 					c.wrObj(st, k, m.obj, na)
 				} else {
-					ne := c.declConst("modelem", k)
+					ne := c.declConst("modelem", baseSort(k))
 					c.wrElem(st, k, m.obj, m.idx, ne)
 				}
 			}
@@ -827,7 +827,7 @@ func (fr *frame) doAppend(call *ssa.CallCommon, args []Val, st *State, pos token
 	s, t := args[0], args[1]
 	stype := call.Args[0].Type()
 	et := stype.Underlying().(*types.Slice).Elem()
-	es := c.sortOf(et)
+	es := c.hk(et)
 	h := c.heap(st, es)
 	n := "(slen " + s.T + ")"
 	if isString(call.Args[1].Type()) {
@@ -847,30 +847,30 @@ func (fr *frame) doAppend(call *ssa.CallCommon, args []Val, st *State, pos token
 	if xv, ok := fr.singleVararg(call.Args[1]); ok {
 		x := fr.val(xv)
 		inArr := fmt.Sprintf("(store %s (+ (soff %s) %s) %s)", oldArr, s.T, n, x.T)
-		freshArr := c.declConst("app_arr", "(Array Int "+es+")")
+		freshArr := c.declConst("app_arr", "(Array Int "+baseSort(es)+")")
 		fr.assumeR(fmt.Sprintf("(forall ((j Int)) (! (=> (and (<= 0 j) (< j %s)) (= (select %s j) (select %s (+ (soff %s) j)))) :pattern ((select %s j))))", n, freshArr, oldArr, s.T, freshArr))
 		fr.assumeR(fmt.Sprintf("(= (select %s %s) %s)", freshArr, n, x.T))
 		// the fresh object exists (unreferenced) also when the append is done in place
 		c.wrObj(st, es, newObj, freshArr)
-		c.wrObj(st, es, c.acc("sobj", s.T), c.define("app_arr", "(Array Int "+es+")", ite(inplace, inArr, oldArr)))
+		c.wrObj(st, es, c.acc("sobj", s.T), c.define("app_arr", "(Array Int "+baseSort(es)+")", ite(inplace, inArr, oldArr)))
 		fr.ghostAllocCond(st, not(inplace), newCap, et)
 		return Val{T: res, Ty: stype}
 	}
 	srcArr := c.rdObj(h, c.acc("sobj", t.T))
-	inArr := c.declConst("app_in", "(Array Int "+es+")")
+	inArr := c.declConst("app_in", "(Array Int "+baseSort(es)+")")
 	fr.assumeR(fmt.Sprintf("(forall ((j Int)) (! (= (select %s j) (ite (and (<= (+ (soff %s) %s) j) (< j (+ (soff %s) %s))) (select %s (+ (soff %s) (- j (+ (soff %s) %s)))) (select %s j))) :pattern ((select %s j))))",
 		inArr, s.T, n, s.T, total, srcArr, t.T, s.T, n, oldArr, inArr))
-	freshArr := c.declConst("app_arr", "(Array Int "+es+")")
+	freshArr := c.declConst("app_arr", "(Array Int "+baseSort(es)+")")
 	fr.assumeR(fmt.Sprintf("(forall ((j Int)) (! (and (=> (and (<= 0 j) (< j %s)) (= (select %s j) (select %s (+ (soff %s) j)))) (=> (and (<= %s j) (< j %s)) (= (select %s j) (select %s (+ (soff %s) (- j %s)))))) :pattern ((select %s j))))",
 		n, freshArr, oldArr, s.T, n, total, freshArr, srcArr, t.T, n, freshArr))
 	c.wrObj(st, es, newObj, freshArr)
-	c.wrObj(st, es, c.acc("sobj", s.T), c.define("app_arr", "(Array Int "+es+")", ite(inplace, inArr, oldArr)))
+	c.wrObj(st, es, c.acc("sobj", s.T), c.define("app_arr", "(Array Int "+baseSort(es)+")", ite(inplace, inArr, oldArr)))
 	// ghost fact naming the operation (usable by axioms about concatenation)
 	c.declOnce("appendOf", "(declare-fun appendOf (Slice Slice Slice) Bool)")
 	fr.assumeR(fmt.Sprintf("(appendOf %s %s %s)", res, s.T, t.T))
 	// Consequences of the two cases, stated once on the result slice (absolute positions):
 	// its first n elements are s's old elements, the next k are t's old elements.
-	rarr := c.define("app_res_arr", "(Array Int "+es+")", ite(inplace, inArr, freshArr))
+	rarr := c.define("app_res_arr", "(Array Int "+baseSort(es)+")", ite(inplace, inArr, freshArr))
 	roff := fmt.Sprintf("(soff %s)", res)
 	fr.assumeR(fmt.Sprintf("(= (select %s (sobj %s)) %s)", c.heap(st, es), res, rarr))
 	fr.assumeR(fmt.Sprintf("(forall ((j Int)) (! (and (=> (and (<= %s j) (< j (+ %s %s))) (= (select %s j) (select %s (+ (soff %s) (- j %s))))) (=> (and (<= (+ %s %s) j) (< j (+ %s %s))) (= (select %s j) (select %s (+ (soff %s) (- j (+ %s %s))))))) :pattern ((select %s j))))",
@@ -894,7 +894,7 @@ func (fr *frame) doCopy(call *ssa.CallCommon, args []Val, st *State, pos token.P
 	c := fr.c
 	d, s := args[0], args[1]
 	et := call.Args[0].Type().Underlying().(*types.Slice).Elem()
-	es := c.sortOf(et)
+	es := c.hk(et)
 	if isString(call.Args[1].Type()) {
 		fr.unsup("copy from string")
 		return Val{T: "0", Ty: types.Typ[types.Int]}
@@ -903,7 +903,7 @@ func (fr *frame) doCopy(call *ssa.CallCommon, args []Val, st *State, pos token.P
 	n := c.define("cpy_n", "Int", fmt.Sprintf("(imin (slen %s) (slen %s))", d.T, s.T))
 	dArr := fmt.Sprintf("(select %s (sobj %s))", h, d.T)
 	sArr := fmt.Sprintf("(select %s (sobj %s))", h, s.T)
-	na := c.declConst("cpy_arr", "(Array Int "+es+")")
+	na := c.declConst("cpy_arr", "(Array Int "+baseSort(es)+")")
 	fr.assumeR(fmt.Sprintf("(forall ((j Int)) (! (= (select %s j) (ite (and (<= (soff %s) j) (< j (+ (soff %s) %s))) (select %s (+ (soff %s) (- j (soff %s)))) (select %s j))) :pattern ((select %s j))))",
 		na, d.T, d.T, n, sArr, s.T, d.T, dArr, na))
 	c.setHeap(st, es, ite(fmt.Sprintf("(> %s 0)", n), fmt.Sprintf("(store %s (sobj %s) %s)", h, d.T, na), h))
@@ -1197,7 +1197,7 @@ func (c *Ctx) optSortKeys(val string, pkg *types.Package) []string {
 		}
 		if te, err := parseTypeExpr(tn); err == nil {
 			if t := c.resolveType(te, pkg); t != nil {
-				out = append(out, c.sortOf(t))
+				out = append(out, c.hk(t))
 			}
 		}
 	}
